@@ -27,7 +27,7 @@ Section Structure.
   (* id, limits and shape of a base message *)
   Definition bmeta (m : msgT) : Z * float * float * bool := (mid m, lo m, hi m, scalar m).
 
-  Lemma b_sum_bmeta (a : msgT) l : bmeta (b_sum O a l) = bmeta a.
+  Lemma b_sum_bmeta V (a : msgT) l : bmeta (b_sum O V a l) = bmeta a.
   Proof. unfold b_sum. destruct (is_fixed a); reflexivity. Qed.
   Lemma b_div_bmeta (a b : msgT) : bmeta (b_div O a b) = bmeta a.
   Proof. unfold b_div. destruct (is_fixed a); reflexivity. Qed.
@@ -63,7 +63,7 @@ Section Structure.
       destruct (eval O V env y) as [vy|]; [|destruct vx; discriminate].
       destruct (IHx vx eq_refl) as [v0 [N W]]. exists v0. split; [exact N|].
       destruct vx as [a|s i l h a]; destruct vy as [b|s' i' l' h' b]; simpl in H;
-        try (destruct (is_fixed a); [|discriminate]); inversion H; subst; simpl; rewrite ?wrapper_rewrap; exact W.
+        try (destruct (is_fixed a); [|destruct (product_keeps_lognorm V); [|discriminate]]); inversion H; subst; simpl; rewrite ?wrapper_rewrap; exact W.
     - destruct (eval O V env x) as [vx|] eqn:Ex; [|discriminate]. inversion H; subst.
       destruct (IHx vx eq_refl) as [v0 [N W]]. exists v0. split; [exact N|]. rewrite wrapper_lift1. exact W.
     - destruct (eval O V env x) as [vx|] eqn:Ex; [|discriminate]. inversion H; subst.
@@ -106,7 +106,7 @@ Section Structure.
       destruct (eval O V env y) as [vy|]; [|destruct vx; discriminate].
       destruct (IHx vx eq_refl) as [v0 [N W]]. exists v0. split; [exact N|].
       destruct vx as [a|s i l h a]; destruct vy as [b|s' i' l' h' b]; simpl in H;
-        try (destruct (is_fixed a); [|discriminate]); inversion H; subst; simpl;
+        try (destruct (is_fixed a); [|destruct (product_keeps_lognorm V); [|discriminate]]); inversion H; subst; simpl;
         rewrite ?tlimits_rewrap_keep by exact K; exact W.
     - destruct (eval O V env x) as [vx|] eqn:Ex; [|discriminate]. inversion H; subst.
       destruct (IHx vx eq_refl) as [v0 [N W]]. exists v0. split; [exact N|]. rewrite tlimits_lift1_keep by exact K. exact W.
@@ -141,7 +141,7 @@ Section Structure.
     - destruct (eval O V env x) as [vx|]; [|discriminate].
       destruct (eval O V env y) as [vy|]; [|destruct vx; discriminate].
       destruct vx as [a|s0 i0 l0 h0 a]; destruct vy as [b|s' i' l' h' b]; simpl in H;
-        try (destruct (is_fixed a)); try discriminate; inversion H as [E]; eapply R; exact E.
+        try (destruct (is_fixed a)); try (destruct (product_keeps_lognorm V)); try discriminate; inversion H as [E]; eapply R; exact E.
     - destruct (eval O V env x) as [vx|]; [|discriminate]. inversion H as [E]. eapply L; exact E.
     - destruct (eval O V env x) as [vx|]; [|discriminate]. inversion H as [E]. eapply L; exact E.
     - destruct (eval O V env x) as [vx|]; [|discriminate]. inversion H as [E]. eapply L; exact E.
@@ -169,14 +169,16 @@ Section Structure.
     - destruct (NB n v H) as [m ->]. exists m, m. auto.
     - destruct (eval O V env x) as [vx|] eqn:Ex; [|discriminate].
       destruct (eval O V env y) as [vy|]; [|discriminate]. inversion H; subst.
-      destruct (IHx vx eq_refl) as (m0 & m & N & -> & M). exists m0, (b_sum O m [base_of vy]).
+      destruct (IHx vx eq_refl) as (m0 & m & N & -> & M). exists m0, (b_sum O V m [base_of vy]).
       simpl. rewrite b_sum_bmeta. auto.
     - destruct (eval O V env x) as [vx|] eqn:Ex; [|discriminate].
       destruct (IHx vx eq_refl) as (m0 & m & N & -> & M).
       destruct (eval O V env y) as [vy|]; [|discriminate].
       destruct vy as [b|s' i' l' h' b].
       + inversion H; subst. exists m0, (b_div O m b). simpl. rewrite b_div_bmeta. auto.
-      + destruct (is_fixed m); inversion H; subst. exists m0, m. auto.
+      + destruct (is_fixed m); [inversion H; subst; exists m0, m; auto|].
+        destruct (product_keeps_lognorm V); [|discriminate]. inversion H; subst.
+        exists m0, (b_div O m b). rewrite b_div_bmeta. auto.
     - destruct (eval O V env x) as [vx|] eqn:Ex; [|discriminate]. inversion H; subst.
       destruct (IHx vx eq_refl) as (m0 & m & N & -> & M). exists m0, (b_pow O m k). simpl. rewrite b_pow_bmeta. auto.
     - destruct (eval O V env x) as [vx|] eqn:Ex; [|discriminate]. inversion H; subst.
@@ -186,7 +188,7 @@ Section Structure.
     - destruct (eval O V env x) as [vx|] eqn:Ex; [|discriminate].
       destruct (IHx vx eq_refl) as (m0 & m & N & -> & M).
       destruct (eval O V env y) as [vy|]; try discriminate; destruct (eval O V env z) as [vz|]; try discriminate.
-      inversion H; subst. exists m0, (b_sum O m [base_of vy; base_of vz]). rewrite b_sum_bmeta. auto.
+      inversion H; subst. exists m0, (b_sum O V m [base_of vy; base_of vz]). rewrite b_sum_bmeta. auto.
     - destruct (eval O V env x) as [vx|] eqn:Ex; [|discriminate].
       destruct (IHx vx eq_refl) as (m0 & m & N & -> & M). inversion H; subst.
       exists m0, (b_zeros O m). rewrite b_zeros_bmeta. auto.
@@ -230,8 +232,18 @@ Section Structure.
   (* the arithmetic of a transformed message is the arithmetic of its base *)
   Lemma transformed_div_mul V s i l h (a : msgT) s' i' l' h' (b : msgT) :
     eval O V [MT s i l h a; MT s' i' l' h' b] (EDiv (EMul (EVar 0) (EVar 1)) (EVar 1))
-    = Some (rewrap V s i l h (b_div O (b_sum O a [b]) b)).
+    = Some (rewrap V s i l h (b_div O (b_sum O V a [b]) b)).
   Proof.
     simpl. unfold rewrap. destruct (keep_limits V) eqn:K; simpl; unfold rewrap; rewrite K; reflexivity.
   Qed.
 End Structure.
+
+(* proposed repair of TransformedMessage.project: the samples are transformed before the base projection *)
+Lemma tproj_cols_repaired (O : ops float) (V : variant) (stack : list (transform float))
+  (cols : list (list float * list float)) : tproject_transforms V = true ->
+  tproj_cols O V stack cols = map (fun c => (map (fun x => fst (transform_det O stack x)) (fst c), snd c)) cols.
+Proof. intro H. unfold tproj_cols. rewrite H. reflexivity. Qed.
+
+Lemma tproj_cols_legacy (O : ops float) (V : variant) (stack : list (transform float))
+  (cols : list (list float * list float)) : tproject_transforms V = false -> tproj_cols O V stack cols = cols.
+Proof. intro H. unfold tproj_cols. rewrite H. reflexivity. Qed.
